@@ -92,7 +92,7 @@ PROPS = {
                          dict(name="remotelost", pkg="remote", test="TestVerifRemoteLost", extra_overlay=reg_shim_overlay, timeout=1200)],
                 rule="remote: real engines with real remotes over loopback TCP: order cases (1-6 concurrent sender goroutines x 1-60 messages, some with > 1024 messages to cross the writer batch size, to 1-4 targets on the peer, "
                      "odd senders attach a sender PID) judged for exactly-once, per sender/target order and sender fidelity; concurrent request/response; peer down (RemoteUnreachableEvent + one dead letter per message) then up on the "
-                     "same address; Start/Stop/dial sequences; remotelost: an established connection is lost and the writer's own watcher goroutine is adopted by the scheduler shim at the registry write lock, "
+                     "same address; reconnect (a working connection to a peer addressed by host name or by IP is lost, the peer returns, later sends must arrive); namesake actors with the targets' ids on the sending engine; abort;  Start/Stop/dial sequences; remotelost: an established connection is lost and the writer's own watcher goroutine is adopted by the scheduler shim at the registry write lock, "
                      "pinning the order of 'notify the router' and 'unregister'; non-trivial = >= 2 messages / ops; distinct = distinct inputs",
                 assumptions=["TCP, drpc framing and the dial timers are runtime behaviour the model assumes (ordered reliable stream while the connection is up)",
                              "batch formation by timing is covered by the for-all-splits theorem, not enumerated"]),
@@ -100,7 +100,7 @@ PROPS = {
                 streams=[dict(name="tree", pkg="actor", test="TestVerifTree", shrink_key="ops", timeout=2400, timeout_thorough=3400),
                          dict(name="childsched", pkg="actor", test="TestVerifChildSched", shrink_key="sched", extra_overlay=safemap_shim_overlay)],
                 rule="tree: real engine and actors; seeded random supervision trees (depth <= 4, fan-out <= 4, built with SpawnChild) and sequential stop / poison / self-stop / crash(budget 0) of arbitrary nodes "
-                     "with Children()/Parent() queries in between; a global log records the order in which Stopped is handled and whether the actor was already unregistered; the actual order is judged by the "
+                     "with Children()/Parent() queries in between; roots spawned WithContext(an already cancelled context) (rx); duplicate SpawnChild (sd); a third party stopping a sibling while the parent waits for a slow child (tp, synchronised on the slow child's inbox length);  a global log records the order in which Stopped is handled and whether the actor was already unregistered; the actual order is judged by the "
                      "post-order acceptor, the stopped set / children lists are compared with the model; childsched: Context.Children() against concurrent Set/Delete on the real safemap.go under the deterministic "
                      "scheduler, all interleavings of 5 small programs; non-trivial = a shutdown of a node (tree) / >= 3 steps (childsched)",
                 assumptions=["no third party stops a descendant while its ancestor is shutting down (known finding KF-D12 otherwise)",
@@ -201,10 +201,12 @@ MANIFEST_TEXT = {
         text="Machine-checked refinement: for every capacity >= 1 and every operation sequence the Lean transcription of ringbuffer.go "
              "returns exactly what an abstract FIFO list returns (HW.C14.refines_fifo, by a representation invariant covering every head/tail "
              "position at growth). The model is tied to the code on every run by exact differential replay of exhaustive small-scope and "
-             "seeded random op sequences on the real RingBuffer, and by regenerated lock-shape facts (each method one critical section; Len one atomic load).",
+             "seeded random op sequences on the real RingBuffer, and by regenerated lock-shape facts (each method one critical section; Len one atomic load). "
+             "Linearizability is a theorem too (HW.C14.linearizable over the fine-grained model HW.RingConc: for every set of thread programs and every schedule of lock acquisitions, atomic adds, releases and loads, "
+             "each thread's results are those of the sequential FIFO run in linearization order); the stream ringsched runs the real ringbuffer.go under the scheduler shim through all interleavings of small programs.",
         design_ref="DESIGN.md section 4, C14",
-        note="Trusted: Lean kernel; axioms propext/Quot.sound only; sync.Mutex mutual exclusion and sync/atomic semantics (linearizability argument rests on the lock-shape fact, "
-             "not on a fine-grained concurrent model); the correspondence harness and generators; int64 overflow and capacity 0 / negative PopN are outside the claim.",
+        note="Trusted: Lean kernel; axioms propext/Quot.sound only; sync.Mutex mutual exclusion and sync/atomic semantics (the fine-grained model RingConc is tied to the code by the regenerated facts 'one critical section, one atomic add inside it, per method' "
+             "and by ringsched at method granularity, not step by step); the correspondence harness and generators; int64 overflow and capacity 0 / negative PopN are outside the claim.",
         technique="Lean 4 refinement proof (invariant + induction over op sequences) + differential correspondence against the Go code",
     ),
     "C15": dict(
